@@ -15,13 +15,13 @@ RULE = ('Cases: a reference (1..4 contigs; contigs of length k-2/k/k+1; contigs 
         'content giving ambiguity codes; or an arbitrary subset of reference windows with present/absent runs of every '
         'length 0..2k).  The samples are built, the table is read back with nk, and every character of `ska map` '
         '[--ambig-mask] [--repeat-mask] is compared with the position-wise definition evaluated on that table.  '
-        'Forced k in {5,7,9,11,15,21,31,33,41,63} plus random odd k, both strand modes, all mask combinations.  '
+        'Forced k in {5,7,9,11,15,21,31,33,41,63} plus random odd k, both strand modes, all mask combinations; one case in thirteen gives the sample FASTA files to `ska map` directly (default k = 17) instead of a stored file.  '
         'Non-trivial: at least one reference k-mer matches a sample; distinct = distinct (k, mode, flags, reference, samples).')
 ASSUMPTIONS = ['the sample dictionary is taken from the real .skf (nk --full-info), so this oracle does not inherit C01',
                'position-wise definition as in DESIGN.md section 6 C04']
 KINDS = ['random', 'shortcontig', 'pattern', 'selfmap', 'lower', 'palin']
 REQUIRED = {t: ['kind:' + x for x in KINDS] + ['flags:am', 'flags:rm', 'flags:am+rm', 'flags:none', 'repeat_masked_positions',
-                                                'selfmap_exact', 'lowercase_ref_positions', 'ref_contig_without_kmers_before_repeat', 'files_with_9+_samples']
+                                                'selfmap_exact', 'lowercase_ref_positions', 'ref_contig_without_kmers_before_repeat', 'files_with_9+_samples', 'route:fasta_inputs']
             for t in ('quick', 'thorough')}
 FORCED_K = [5, 7, 9, 11, 15, 21, 31, 33, 41, 63]
 
@@ -44,9 +44,18 @@ def plan(tier, seed, rng, scale):
         descs.append({'k': k, 'rc': rng.random() < 0.7, 'kind': rng.choice(KINDS + ['random', 'pattern']),
                       'am': rng.random() < 0.4, 'rm': rng.random() < 0.5, 'seed': rng.getrandbits(32),
                       'big': tier == 'thorough' and i % 40 == 0})
+    for i in range(n // 12):
+        # the input route without a stored file: `ska map ref.fa s0.fa s1.fa ...` builds at the default k (17, both strands)
+        descs.insert(rng.randrange(len(descs)), {'k': 17, 'rc': True, 'kind': rng.choice(KINDS + ['random', 'pattern']), 'am': rng.random() < 0.4,
+                                                 'rm': rng.random() < 0.5, 'seed': rng.getrandbits(32), 'fasta_route': True})
     for i, d in enumerate(descs):
         d['chk'] = (i % 6 == 0)
     return descs
+
+
+def map_inputs(desc, ctx, st):
+    # a single input file is always taken for a stored file (documented), so the FASTA route needs two samples or more
+    return st['files'] if desc.get('fasta_route') and len(st['files']) >= 2 else [ctx.path('o.skf')]
 
 
 def mutate(rng, s, nmut):
@@ -267,7 +276,7 @@ def setup(desc, ctx, res, binary):
         return None
     hdr, table = G.nk(ctx, ctx.path('o.skf'), binary=binary)
     return {'ref': ref, 'samples': samples, 'table': table, 'names': ['s%d' % i for i in range(len(samples))],
-            'contig_names': names}
+            'contig_names': names, 'files': files}
 
 
 def ref_stats(res, ref, k, rcmode):
@@ -308,13 +317,15 @@ def run_case(desc, ctx):
         if desc['seed'] % 4 == 2:
             # output to a file that already exists and is longer than the new alignment
             ctx.write('map.out', '>old\n' + 'ACGT' * (sum(len(c) for c in ref) + 50) + '\n>older\nAC\n')
-            m = ctx.sh(b, 'map', ctx.path('ref.fa'), ctx.path('o.skf'), *flags_of(desc), *th, '-o', ctx.path('map.out'))
+            m = ctx.sh(b, 'map', ctx.path('ref.fa'), *map_inputs(desc, ctx, st), *flags_of(desc), *th, '-o', ctx.path('map.out'))
             if m.returncode == 0:
                 m = type('R', (), {'returncode': 0, 'stdout': open(ctx.path('map.out')).read(), 'stderr': m.stderr})()
             if variant == 'rel':
                 res.count('output_file_existed')
         else:
-            m = ctx.sh(b, 'map', ctx.path('ref.fa'), ctx.path('o.skf'), *flags_of(desc), *th)
+            m = ctx.sh(b, 'map', ctx.path('ref.fa'), *map_inputs(desc, ctx, st), *flags_of(desc), *th)
+        if desc.get('fasta_route') and variant == 'rel' and len(st['files']) >= 2:
+            res.count('route:fasta_inputs')
         if variant == 'chk':
             res.count('chk_runs')
             if m.returncode != 0 and 'overflow' in m.stderr:
